@@ -365,6 +365,11 @@ impl FixtureDatabase {
                                 if self.file_cache.contains_key(&canonical) {
                                     reanalyze_as_plugin.insert(canonical.clone());
                                 }
+                                // Its own imports were followed as a non-plugin's if it was
+                                // visited earlier (visiting order is arbitrary): visit it again.
+                                if processed_files.remove(&canonical) {
+                                    new_modules.insert(canonical.clone());
+                                }
                             }
 
                             if !processed_files.contains(&canonical)
@@ -395,6 +400,9 @@ impl FixtureDatabase {
                                 // existing definitions get is_plugin=true.
                                 if self.file_cache.contains_key(&canonical) {
                                     reanalyze_as_plugin.insert(canonical.clone());
+                                }
+                                if processed_files.remove(&canonical) {
+                                    new_modules.insert(canonical.clone());
                                 }
                             }
 
